@@ -507,6 +507,29 @@ fn run_stream_check(opts: &Opts, prop: Prop, known: &[Known]) -> (Vec<Phase>, BT
                     }
                 }
             }
+            // every value of the FIRST byte, the checksum computed over it: only 0xD3 may be accepted
+            if l % 8 == 0 || l < 16 || l > 1015 {
+                let mut f = refmodel::make_frame(0, &payload);
+                let n = f.len();
+                for v in 0..=255u8 {
+                    f[0] = v;
+                    let c = refmodel::crc24q(&f[..n - 3]);
+                    f[n - 3] = (c >> 16) as u8;
+                    f[n - 2] = (c >> 8) as u8;
+                    f[n - 1] = c as u8;
+                    st.oracle_evals += 1;
+                    if let Err(viol) = judge::check_c03_slice(&f, &format!("first byte {:#04x} with a checksum computed over it, L={}", v, l)) {
+                        let mut t = StreamTrace::empty("C03");
+                        t.origin = format!("sweep:c03:first_byte={:#04x},L={}", v, l);
+                        t.run = (l as u64) * 256 + v as u64;
+                        t.stream = f.clone();
+                        t.segments.push(trace::Segment { label: format!("nearmiss:preamble_crc_ok:{:#04x}", v), kind: "nearmiss".into(), start: 0, len: n, intact: false });
+                        t.normalise();
+                        return handle(viol, Payload::Stream(t));
+                    }
+                }
+                st.probe("c03_first_byte_sweep");
+            }
             st.probe_n("c03_header_sweep_frames", 64);
             None
         });
@@ -517,7 +540,7 @@ fn run_stream_check(opts: &Opts, prop: Prop, known: &[Known]) -> (Vec<Phase>, BT
             report_failure(opts, f);
         }
         extra = json!({
-            "exhaustive_subspaces": ["all 65 536 header values (64 reserved-bit settings x 1024 payload lengths): valid frame accepted with the right attributes, one byte short -> Incomplete, one checksum bit off -> NotValid, one byte extra -> same verdict"],
+            "exhaustive_subspaces": ["all 65 536 header values (64 reserved-bit settings x 1024 payload lengths): valid frame accepted with the right attributes, one byte short -> Incomplete, one checksum bit off -> NotValid, one byte extra -> same verdict", "all 256 values of the first byte with a checksum computed over it, for 160 payload lengths: only 0xD3 is accepted"],
             "length_sweep": format!("payload lengths {} x 3 fills, each delivered one byte at a time (every truncation length of every swept L)", if opts.tier == "thorough" && !opts.secondary { "0..=1023 (all)" } else { "18 boundary values" }),
             "length_sweep_traces": n,
         });
@@ -597,7 +620,7 @@ fn run_stream_check(opts: &Opts, prop: Prop, known: &[Known]) -> (Vec<Phase>, BT
             }
         }
     }
-    if prop == Prop::C05 || prop == Prop::C13 {
+    if prop == Prop::C03 || prop == Prop::C05 || prop == Prop::C13 {
         // every message number 0..4095 as a bare two-byte payload and with a few body bytes, followed by
         // nothing / one byte / another frame
         let t0 = Instant::now();
@@ -616,6 +639,8 @@ fn run_stream_check(opts: &Opts, prop: Prop, known: &[Known]) -> (Vec<Phase>, BT
                     let what = format!("frame for message number {} (payload {} bytes) + {} suffix bytes", n, p.len(), sfx.len());
                     let res = if prop == Prop::C05 {
                         judge::check_c05_buffer(&v, &what)
+                    } else if prop == Prop::C03 {
+                        judge::check_c03_slice(&v, &what).map(|_| ())
                     } else {
                         judge::check_c13(&v, f.len(), &what, true, None).and_then(|_| judge::check_c13_scanner(&v, f.len(), &what))
                     };
